@@ -52,6 +52,19 @@ def _is_exotic_sub(datum, base) -> bool:
     return isinstance(datum, bases) and type(datum) not in bases
 
 
+def _contains_one_shot(datum, depth=0) -> bool:
+    if hasattr(datum, "__next__"):
+        return True
+    if depth > 6:
+        return False
+    if isinstance(datum, dict):
+        return any(_contains_one_shot(x, depth + 1) for x in datum.values())
+    if isinstance(datum, (list, tuple, set, frozenset, collections.deque)):
+        return any(_contains_one_shot(x, depth + 1) for x in datum)
+    inner = getattr(datum, "_items", None)
+    return isinstance(inner, (list, tuple)) and any(_contains_one_shot(x, depth + 1) for x in inner)
+
+
 def ref_load(spec, datum, strict: bool, env):  # noqa: C901, PLR0911, PLR0912, PLR0915
     tag = spec[0]
     if tag in ("newtype", "annotated", "alias"):
@@ -232,8 +245,8 @@ def ref_load(spec, datum, strict: bool, env):  # noqa: C901, PLR0911, PLR0912, P
             return _acc(None)
         return ref_load(spec[1], datum, strict, env)
     if tag == "union":  # noqa: RET503
-        if hasattr(datum, "__next__"):
-            return _U  # a one-shot iterator is consumed by the first case that tries it
+        if _contains_one_shot(datum):
+            return _U  # a one-shot iterator (at any depth) is consumed by the first case that reaches it
         outs = [ref_load(c, datum, strict, env) for c in spec[1]]
         accepts = [o for o in outs if o[0] == ACCEPT]
         unknown = [o for o in outs if o[0] == "accept_unknown"]
